@@ -169,6 +169,7 @@ type rig struct {
 	// receiver
 	rgen    int
 	rsem    chan struct{}
+	unavail bool // the next readiness test of the receiver answers no (one shot)
 	srvApp  *serverApp
 	srv     *stshttp.Server
 	srvStop chan bool
@@ -483,6 +484,13 @@ func (g *gkWrap) Receive(file *sts.Partial, reader io.Reader) error {
 
 func (g *gkWrap) Ready() bool {
 	if g.dead() {
+		return false
+	}
+	g.r.mu.Lock()
+	un := g.r.unavail
+	g.r.unavail = false
+	g.r.mu.Unlock()
+	if un {
 		return false
 	}
 	return g.GateKeeper.Ready()
@@ -888,6 +896,13 @@ func sig(parts []wirePart) string {
 func (r *rig) transmit(gen int, real sts.Transmit, p sts.Payload) (int, error) {
 	parts := payloadParts(p)
 	menu := []string{"refuse", "lost", "recv-restart", "down:60"}
+	if !r.conf.SlowRead {
+		// (not with slow reads: the receiver answers 503 before it has read the body, the client
+		// then closes the encoder - a write lock - while the body writer sleeps in a slow read under
+		// the encoder's read lock; a goroutine waiting for a sync.RWMutex is not durably blocked, so
+		// the bubble's clock could not advance to end the sleep: an artefact of synctest, not a deadlock)
+		menu = append(menu, "unavail")
+	}
 	for i := range parts {
 		menu = append(menu, fmt.Sprintf("gkfail:%d", i), fmt.Sprintf("cut:%d", i), fmt.Sprintf("corrupt:%d", i))
 	}
@@ -916,6 +931,12 @@ func (r *rig) transmit(gen int, real sts.Transmit, p sts.Payload) (int, error) {
 		return finish(0, errors.New("injected: connection refused"))
 	case alt == "lost":
 		lose = true
+	case alt == "unavail":
+		// the receiver answers this request with an HTTP error status of its own (503: the
+		// source's staging area says it is not ready) - the real client code classifies the answer
+		r.mu.Lock()
+		r.unavail = true
+		r.mu.Unlock()
 	case strings.HasPrefix(alt, "gkfail:"), strings.HasPrefix(alt, "cut:"), strings.HasPrefix(alt, "corrupt:"):
 		var k int
 		kind := alt[:strings.Index(alt, ":")]
